@@ -152,3 +152,48 @@ Proof. split; reflexivity. Qed.
 
 Lemma max_history_zero times : times <> [] -> window (Some 0) times = times.
 Proof. intros H. unfold window. destruct times; [contradiction|reflexivity]. Qed.
+
+(* the window is a non-empty suffix of a non-empty sample list, whatever max_history is *)
+Lemma window_suffix mh times : exists pre, times = pre ++ window mh times.
+Proof.
+  unfold window. destruct mh as [m|]; [|exists []; reflexivity].
+  destruct (Nat.ltb m (length times)); [|exists []; reflexivity].
+  destruct (Nat.eqb m 0); [exists []; reflexivity|apply lastn_suffix].
+Qed.
+
+Lemma window_nonempty mh times : times <> [] -> window mh times <> [].
+Proof.
+  intros Hne. unfold window. destruct mh as [m|]; [|exact Hne].
+  destruct (Nat.ltb m (length times)) eqn:E; [|exact Hne].
+  destruct (Nat.eqb m 0) eqn:E0; [exact Hne|].
+  apply Nat.ltb_lt in E. apply Nat.eqb_neq in E0.
+  intro H. assert (L : length (lastn m times) = m) by (apply lastn_length; lia).
+  rewrite H in L. simpl in L. lia.
+Qed.
+
+(* in every table reached from the empty one, every reported average has a
+   divisor >= 1 (no division by zero), the divisor never exceeds the number of
+   samples, and the reported sum is over a suffix of the samples *)
+Lemma average_divisor ops mh s n sm dv :
+  snd (step (fst (run [] ops)) (Get true mh)) = Stats s -> In (n, (sm, dv)) s ->
+  1 <= dv <= length (samples (fst (run [] ops)) n) /\
+  exists pre, samples (fst (run [] ops)) n = pre ++ window mh (samples (fst (run [] ops)) n) /\
+              sm = zsum (window mh (samples (fst (run [] ops)) n)) /\
+              dv = length (window mh (samples (fst (run [] ops)) n)).
+Proof.
+  set (t := fst (run [] ops)). intros E Hin.
+  assert (Hwf : wf t) by (apply run_wf; split; [constructor|intros ? ? []]).
+  simpl in E. injection E as E. subst s.
+  apply in_map_iff in Hin as ((n', times) & Heq & Hin). simpl in Heq.
+  unfold stat in Heq. injection Heq as Hn Hs Hd. subst n'.
+  assert (Hsam : samples t n = times).
+  { destruct (get_value t true mh _ n times Hwf eq_refl Hin) as [_ H]. exact H. }
+  rewrite Hsam. destruct Hwf as [_ Hne]. specialize (Hne n times Hin).
+  destruct (window_suffix mh times) as [pre Hpre].
+  pose proof (window_nonempty mh times Hne) as Hw.
+  split.
+  - subst dv. split.
+    + destruct (window mh times); [congruence|simpl; lia].
+    + rewrite Hpre at 2. rewrite app_length. lia.
+  - exists pre. repeat split; [exact Hpre|symmetry; exact Hs|symmetry; exact Hd].
+Qed.
